@@ -443,9 +443,9 @@ def stream_voxels(R, n):
 def run(R):
     R.rule = RULE
     quick = R.tier == "quick"
-    for fn, n in ((stream_datasets, 200 if quick else 4000), (stream_duplicates, 80 if quick else 1500),
-                  (stream_damaged, 120 if quick else 2500), (stream_minishard, 300 if quick else 6000),
-                  (stream_voxels, 25 if quick else 400)):
+    for fn, n in ((stream_datasets, 600 if quick else 5000), (stream_duplicates, 250 if quick else 2500),
+                  (stream_damaged, 400 if quick else 4000), (stream_minishard, 1000 if quick else 12000),
+                  (stream_voxels, 60 if quick else 600)):
         try:
             fn(R, n)
         except Exception:  # noqa: BLE001 - keep the violations found so far reportable
